@@ -15,7 +15,7 @@ func (d *KeyLocker) verifCounts(key interface{}) (r, w int, present bool) {
 	if !ok {
 		return 0, 0, false
 	}
-	return e.readCount, e.writeCount, true
+	return int(e.readCount), int(e.writeCount), true
 }
 
 // VerifEntries returns the number of per-key entries an interface{}-keyed locker retains.
